@@ -8,8 +8,8 @@ import (
 	"encoding/json"
 	"fmt"
 	"math/rand"
-	"sort"
 	"strings"
+	"sync"
 	"testing"
 	"testing/synctest"
 	"time"
@@ -48,23 +48,27 @@ type Flags struct {
 	MaxBlocks int // max number of block events per history
 	NoCsvJump bool
 	NoWinJump bool
+	// TimeAlways / BlocksAlways disable the relevance pruning of time and block events.
+	TimeAlways   bool
+	BlocksAlways bool
 }
 
 type Cfg struct {
-	Name        string
-	Chain       string // btc | lbtc
-	SwapType    string // out | in
-	AInitiates  bool
-	ALnd, BLnd  bool
-	AWallet     node.WalletCfg
-	BWallet     node.WalletCfg
-	Flags       Flags
-	Premium     *premium.Setting
-	LimitPPM    int64
+	Name       string
+	Chain      string // btc | lbtc
+	SwapType   string // out | in
+	AInitiates bool
+	ALnd, BLnd bool
+	AWallet    node.WalletCfg
+	BWallet    node.WalletCfg
+	Flags      Flags
+	Premium    *premium.Setting
+	LimitPPM   int64
 	// Hooks
 	ExtraEnabled func(x *Exec) []mc.Event
 	ExtraApply   func(x *Exec, e mc.Event) bool
 	ExtraKey     func(x *Exec) string
+	ExtraTokens  func(x *Exec) [][2]string
 	Setup        func(x *Exec)
 	NodeCfg      func(x *Exec, id string, c *node.Cfg)
 	Mutations    func(x *Exec, m Msg) []Mutation
@@ -113,7 +117,9 @@ type Exec struct {
 	RPCErr    string
 	Ctx       map[string]any
 	Panics    []string
+	netMu     sync.Mutex
 	lastEff   int
+	finished  bool
 	incA      int
 	incB      int
 }
@@ -149,6 +155,8 @@ func (x *Exec) nodeCfg(id string) node.Cfg {
 }
 
 func (x *Exec) enqueue(from, to string, t int, payload []byte) {
+	x.netMu.Lock()
+	defer x.netMu.Unlock()
 	q := x.Net[to]
 	if n := len(q); n > 0 && q[n-1].Type == t && q[n-1].From == from && string(q[n-1].Payload) == string(payload) {
 		return // collapse identical consecutive copies (retransmissions)
@@ -273,7 +281,7 @@ func (x *Exec) Enabled() []mc.Event {
 		}
 	}
 	c := x.W.Chain(x.Cfg.Chain)
-	if f.Blocks && (f.MaxBlocks == 0 || x.NBlocks < f.MaxBlocks) {
+	if f.Blocks && (f.MaxBlocks == 0 || x.NBlocks < f.MaxBlocks) && (f.BlocksAlways || x.chainRelevant()) {
 		out = append(out, ev("block", "1", 0, 0))
 		if ot := x.openingTx(); ot != nil {
 			conf := c.Confs(ot.ID)
@@ -301,7 +309,25 @@ func (x *Exec) Enabled() []mc.Event {
 		}
 	}
 	if f.Time && (f.MaxTime == 0 || x.NTime < f.MaxTime) {
-		out = append(out, ev("time", "11s", 0, 0), ev("time", "11m", 0, 0))
+		short, long := f.TimeAlways, f.TimeAlways
+		for _, n := range []*node.Node{x.A, x.B} {
+			for _, s := range n.Swaps() {
+				if s.IsFinished() {
+					continue
+				}
+				long = true
+				c := string(s.Current)
+				if strings.Contains(c, "ValidateTxAndPay") || strings.HasSuffix(c, "_ClaimSwap") || strings.Contains(c, "ClaimSwapCsv") {
+					short = true
+				}
+			}
+		}
+		if short {
+			out = append(out, ev("time", "11s", 0, 0))
+		}
+		if long {
+			out = append(out, ev("time", "11m", 0, 0))
+		}
 	}
 	if !x.A.Life.Dead() {
 		if f.PayPlan && x.Cfg.ATaker() && len(x.W.PayPlan[IDA]) == 0 && !x.claimPaid(x.A) {
@@ -310,7 +336,11 @@ func (x *Exec) Enabled() []mc.Event {
 			}
 		}
 		for _, m := range f.Faults {
-			if len(x.W.Faults[IDA+"/"+m]) == 0 {
+			base := m
+			if i := strings.Index(m, "*"); i > 0 {
+				base = m[:i]
+			}
+			if len(x.W.Faults[IDA+"/"+base]) == 0 {
 				out = append(out, ev("fault", m, 0, 1))
 			}
 		}
@@ -346,17 +376,17 @@ func (x *Exec) Enabled() []mc.Event {
 	return out
 }
 
-func (x *Exec) inflight(id string) []string {
-	var out []string
-	ln := x.W.LN[id]
-	for h, p := range ln.Payments {
-		if p.State == world.PayInflight {
-			out = append(out, h)
-		}
+// chainRelevant: somebody can observe a new block (a transaction is known or
+// an unfinished swap has a payment window running).
+func (x *Exec) chainRelevant() bool {
+	if len(x.W.Chain(x.Cfg.Chain).Order) > 0 {
+		return true
 	}
-	sort.Strings(out)
-	return out
+	_, _, ok := x.window()
+	return ok
 }
+
+func (x *Exec) inflight(id string) []string { return x.W.LN[id].Inflight() }
 
 func (x *Exec) claimPaid(n *node.Node) bool {
 	for _, p := range n.LN.Payments {
@@ -491,7 +521,15 @@ func (x *Exec) Apply(e mc.Event) {
 			x.W.LN[IDA].Resolve(h[0], e.Arg == "ok")
 		}
 	case "fault":
-		x.W.AddFault(IDA, e.Arg, 0)
+		if i := strings.Index(e.Arg, "*"); i > 0 {
+			var n int
+			fmt.Sscanf(e.Arg[i+1:], "%d", &n)
+			for k := 0; k < n; k++ {
+				x.W.AddFault(IDA, e.Arg[:i], k)
+			}
+		} else {
+			x.W.AddFault(IDA, e.Arg, 0)
+		}
 	case "restart":
 		if e.Arg == "A" {
 			x.A.Kill()
@@ -517,11 +555,30 @@ func (x *Exec) Apply(e mc.Event) {
 			panic("unknown event " + e.Name)
 		}
 	}
-	node.Settle()
+	x.settle()
 	x.lastEff = x.A.Life.EffectCount()
 	if e.Crash > 0 && x.A.Life.CrashArmed() {
 		// the armed crash point was not reached: treat as crash after the event
 		x.A.Kill()
+	}
+}
+
+// settle waits for quiescence and then lets the watchers look at new
+// registrations, until nothing moves any more.
+func (x *Exec) settle() {
+	for i := 0; i < 20; i++ {
+		node.Settle()
+		moved := false
+		for _, n := range []*node.Node{x.A, x.B} {
+			for _, w := range []*node.SimWatcher{n.BtcW, n.LbtcW} {
+				if w != nil && w.PollIfDirty() {
+					moved = true
+				}
+			}
+		}
+		if !moved {
+			return
+		}
 	}
 }
 
@@ -560,35 +617,81 @@ func (x *Exec) inject(kind string) {
 	x.deliver(Msg{From: IDB, To: IDA, Type: t, Payload: payload})
 }
 
-// Key is the canonical state key.
+// Key is the canonical state key: the raw state rendering with every random
+// string replaced by a label assigned in a deterministic order.
 func (x *Exec) Key() string {
 	var nets []string
+	x.netMu.Lock()
 	for _, r := range []string{IDA, IDB} {
 		for _, m := range x.Net[r] {
-			nets = append(nets, fmt.Sprintf("%s<%x:%s", who(r), m.Type, node.CanonRecord(x.W, string(m.Payload))))
+			nets = append(nets, fmt.Sprintf("%s<%x:%s", who(r), m.Type, string(m.Payload)))
 		}
 	}
+	x.netMu.Unlock()
 	base := uint32(100)
-	k := fmt.Sprintf("T+%ds nt=%d nb=%d | %s | %s | %s | %s | net%v | %s | rpcerr=%q panics=%d", int(time.Since(x.Start)/time.Second), x.NTime, x.NBlocks,
-		x.A.Key(), x.B.Key(), x.W.Btc.Key(base, x.W.Label), x.W.Lbtc.Key(base, x.W.Label), nets, x.W.FaultKey(), x.RPCErr != "", len(x.Panics))
+	k := fmt.Sprintf("T+%ds nt=%d nb=%d | %s | %s | %s | %s | net%v | %s | rpcerr=%s panics=%d", int(time.Since(x.Start)/time.Second), x.NTime, x.NBlocks,
+		x.A.Key(), x.B.Key(), x.W.Btc.Key(base), x.W.Lbtc.Key(base), nets, x.W.FaultKey(), fmt.Sprint(x.RPCErr != ""), len(x.Panics))
 	if x.Cfg.ExtraKey != nil {
 		k += x.Cfg.ExtraKey(x)
+	}
+	lab := world.NewLabeler()
+	var pairs []string
+	seen := map[string]bool{}
+	toks := append(x.A.Tokens(), x.B.Tokens()...)
+	if x.Cfg.ExtraTokens != nil {
+		toks = append(toks, x.Cfg.ExtraTokens(x)...)
+	}
+	for _, t := range toks {
+		if seen[t[1]] || len(t[1]) < 8 {
+			continue
+		}
+		seen[t[1]] = true
+		pairs = append(pairs, t[1], lab.Label(t[0], t[1]))
+	}
+	if len(pairs) > 0 {
+		k = strings.NewReplacer(pairs...).Replace(k)
 	}
 	return k
 }
 
 // Finish ends the execution: both incarnations die, every blocked goroutine is released.
-func (x *Exec) Finish() {
+func (x *Exec) Finish() []string {
+	if x.finished {
+		return nil
+	}
+	x.finished = true
 	x.A.Kill()
 	x.B.Kill()
 	x.W.Shutdown()
-	vsync.Abort()
 	synctest.Wait()
 	// Time stops when the bubble's main goroutine exits: let every armed
 	// timer of the dead incarnations fire (their goroutines end at the next
 	// simulated call) before leaving.
 	time.Sleep(11 * time.Minute)
 	synctest.Wait()
+	// Whoever still waits for a lock now waits for a holder that can never
+	// release it: a deadlock (decided structurally, not by a time-out).
+	stuck := vsync.Stuck()
+	vsync.Abort()
+	synctest.Wait()
+	return stuck
+}
+
+// TraceLog prints the observation log of every execution (debugging).
+var TraceLog bool
+
+func (x *Exec) dumpLog() {
+	for _, o := range x.W.Log {
+		pl := o.Payload
+		if o.Kind == "store" {
+			pl = ""
+		}
+		if len(pl) > 100 {
+			pl = pl[:100]
+		}
+		fmt.Printf("   %3d t=%-8s %s inc%d %-14s %s %s %s %s %s %s\n", o.Seq, o.At.Round(time.Millisecond), who(o.Node), o.Inc, o.Kind, o.State, o.Result, o.Err, o.Extra, o.TxID, pl)
+	}
+	fmt.Println("   ---")
 }
 
 // Oracle inspects the finished execution (whole log + ground truth).
@@ -613,20 +716,26 @@ func Runner(t *testing.T, cfg *Cfg, initial []mc.Event, oracles []Oracle, outcom
 				for i, e := range history {
 					if i == len(history)-1 {
 						res.PrefixKey = x.Key()
+						res.PrefixDiff = res.PrefixKey
 					}
 					x.Apply(e)
 				}
 				res.Effects = x.lastEff
+				if TraceLog {
+					x.dumpLog()
+				}
 				res.Key = x.Key()
+				res.KeyText = res.Key
 				res.Enabled = x.Enabled()
 				for _, o := range oracles {
 					res.Violations = append(res.Violations, o(x)...)
 				}
-				for _, d := range vsync.TakeDeadlocks() {
-					res.Violations = append(res.Violations, mc.Violation{Property: "C18", Key: "deadlock:" + d.Kind + ":" + DeadlockSite(d), Detail: strings.Join(d.Stacks, "\n---\n")})
-				}
 				if outcome != nil {
 					res.Outcome = outcome(x)
+				}
+				if stuck := x.Finish(); len(stuck) > 0 {
+					d := vsync.DeadlockReport{Kind: "stuck", Stacks: stuck}
+					res.Violations = append(res.Violations, mc.Violation{Property: "C18", Key: "deadlock:" + DeadlockSite(d), Detail: strings.Join(stuck, "\n---\n")})
 				}
 			})
 		}()
